@@ -98,7 +98,11 @@ def gen_plan(seed, tier):
     params["prior"] = {"$arr": dict(kind="spd", seed=r2.randrange(10**6), d=desc["d"],
                                     cond=r2.choice([1e6, 1e9, 1e10, 1e11, 1e12]))}
   hist_scale = r2.choice([1.0, 1.0, 3.0, 5.0, 20.0, 0.2])
+  r4 = substream(seed, "c13-extra")
+  with_pre = r4.random() < 0.2          # the estimator also has a preprocessor; formed pairs are passed all the same
+  signed_zeros = params.get("prior") == "covariance" and desc["kind"] != "grid" and r4.random() < 0.4
   plan = dict(run_seed=seed, dataset=desc, params=params, config=config, history_scale=hist_scale,
+              with_pre=with_pre, signed_zeros=signed_zeros,
               frac=r.choice([0.1, 0.3, 0.5]) if config != "natural" else r.choice([3.0, 10.0, 100.0]),
               ambient=r.randrange(10**6), history=r.random() < 0.25)
   if config == "stub":
@@ -130,6 +134,18 @@ def run_plan(plan):
   D = make_data(plan["dataset"])
   pairs = D.S[D.pairs_idx]
   y = D.pairs_y
+  if plan.get("signed_zeros"):
+    # coarse measurements: many exact zeros, and the same point carries +0.0 in one
+    # pair and -0.0 in another (equal numbers, other bytes)
+    sc_ = float(np.abs(D.S).std()) or 1.0
+    pairs = np.round(pairs / sc_ * 2.0) / 2.0 * sc_
+    rz = np.random.RandomState(h64("c13-zeros", plan["run_seed"]) & 0xFFFFFFFF)
+    flip = (pairs == 0) & (rz.rand(*pairs.shape) < 0.5)
+    pairs[flip] = -0.0
+    cov["signed_zero_pairs"] += 1
+    if len(np.unique(pairs.reshape(-1, D.d), axis=0)) <= D.d + 1:
+      plan = dict(plan, signed_zeros=False)
+      pairs = D.S[D.pairs_idx]
   p = dict(plan["params"])
   prior = p["prior"]
   if isinstance(prior, dict):
@@ -154,6 +170,9 @@ def run_plan(plan):
     if eta is None:
       raise Inconclusive("no_negative_direction_for_natural_failure")
     p["balance_param"] = float(eta)
+    if plan.get("with_pre"):
+      p["preprocessor"] = np.array(D.S, copy=True)
+      cov["estimator_has_preprocessor"] += 1
     est = ml.SDML(**p)
     if plan["history"]:
       try:
